@@ -164,9 +164,22 @@ def h_presence(ctx):
             img.section(nm, sh_type=1, sh_offset=o, sh_size=4)
     o = img.blob([0])
     img.section('.text', sh_type=1, sh_offset=o, sh_size=1)
-    img.add_shstrtab()
-    elf = EF.ELFFile(ctx.stream(img.build()))
+    if cfg.get('lookalikes'):
+        # sections whose names merely END with (or contain) the names asked for, and an unreferenced string in the name table
+        # (slim LTO objects have .gnu.debuglto_.debug_info and no .debug_info): no debugging information of either naming
+        for nm in ('.gnu.debuglto_.debug_info', '.gnu.debuglto_.zdebug_info', 'x.eh_frame', '.debug_info.dwo'):
+            o = img.blob([0, 0])
+            img.section(nm, sh_type=1, sh_offset=o, sh_size=2)
+        img.add_shstrtab(extra=[ord(c) for c in '.gnu_debuglink\0'])
+    else:
+        img.add_shstrtab()
+    data = img.build()
+    elf = EF.ELFFile(ctx.stream(data))
     ctx.outcome('ok')
+    # each question also as the very first one asked of a freshly opened file
+    ctx.check_eq('presence/strict/first-query/%s' % present, bool(EF.ELFFile(ctx.stream(data)).has_dwarf_info(strict=True)), bool(present[0] or present[1]))
+    ctx.check_eq('presence/non-strict/first-query/%s' % present, bool(EF.ELFFile(ctx.stream(data)).has_dwarf_info()), bool(present[0] or present[1] or present[2]))
+    ctx.check_eq('presence/has_dwarf_link/first-query', bool(EF.ELFFile(ctx.stream(data)).has_dwarf_link()), False)
     ctx.check_eq('presence/strict/%s' % present, bool(elf.has_dwarf_info(strict=True)), bool(present[0] or present[1]))
     ctx.check_eq('presence/non-strict/%s' % present, bool(elf.has_dwarf_info()), bool(present[0] or present[1] or present[2]))
     ctx.check_eq('presence/has_dwarf_link', bool(elf.has_dwarf_link()), False)
@@ -299,7 +312,7 @@ HARNESSES = [
       expect=('ok', 'rejected'),
       desc='declared size (symbolic) different from the inflated size is rejected in both compressed formats; a .zdebug magic (4 symbolic bytes) other than ZLIB is rejected'),
     H('h11_2_short_zdebug', h_short_zdebug, lambda tier: [dict(n=n) for n in (0, 4, 12)], expect=('rejected',), desc='.zdebug sections of at most 12 bytes are rejected'),
-    H('h11_3_presence', h_presence, lambda tier: [dict(present=[a, b, c]) for a in (0, 1) for b in (0, 1) for c in (0, 1)], expect=('ok',),
+    H('h11_3_presence', h_presence, lambda tier: [dict(present=[a, b, c], lookalikes=k) for a in (0, 1) for b in (0, 1) for c in (0, 1) for k in (False, True)], expect=('ok',),
       desc='has_dwarf_info(strict) over the 2^3 presence combinations of .debug_info / .zdebug_info / .eh_frame'),
     H('h11_4_debuglink', h_debuglink,
       lambda tier: [dict(elfclass=c, little=l, namelen=n, follow=f, loader=ld, own_info=o) for c, l in ENVS[:2] for n in ((1, 3, 4, 6) if tier == 'quick' else range(1, 13))
